@@ -146,7 +146,15 @@ class Memory:
         raise Unsupported('zero of %r' % ty)
 
     def note_write(s, st, o, off):
-        if o.pre and not o.allow: st.writes.append('%s+%d' % (o.name, off))
+        if o.pre and not o.allow:
+            st.writes.append('%s+%d' % (o.name, off))
+            ex = s.ex
+            if getattr(ex, 'eager_writes', False) and ex.mode != 'conc' and o.name not in ex.eager_seen:
+                # report the store where it happens: a path that later runs into the time cap still yields the finding
+                ex.eager_seen.add(o.name)
+                from symex import Violation
+                m = ex.full_model(st)
+                if m is not None: ex.violations.append(Violation('assert', 'the query stores only to fresh memory (recorded at the store)', m, st, 'writes to pre-existing objects: %s+%d' % (o.name, off)))
 
     def store(s, st, ty, v, p):
         n = s.mod.size(ty)
